@@ -230,7 +230,7 @@ func runFetchCase(t *testing.T, r *verifkit.Run, which string, rng *rand.Rand, c
 		IndexInterval: []int32{1, 3, 100}[rng.Intn(3)],
 		CacheBytes:    []int{0, 0, 1 << 20, 700}[rng.Intn(4)],
 		ReadAhead:     []int{0, 2}[rng.Intn(2)],
-		BufBatches:    2 + rng.Intn(4),
+		BufBatches:    2 + rng.Intn(7),
 		Restart:       rng.Intn(3) == 0,
 		Gap:           rng.Intn(4) == 0,
 	}
@@ -527,6 +527,9 @@ func runFetchCase(t *testing.T, r *verifkit.Run, which string, rng *rand.Rand, c
 		} else {
 			s := newScenario(t, cfg)
 			nb := 4 + rng.Intn(10)
+			if fc.Mode == "buffered" {
+				nb += rng.Intn(24) // segments of up to BufBatches batches: several sparse-index entries per segment
+			}
 			for b := 0; b < nb; b++ {
 				pt := parts[rng.Intn(len(parts))]
 				id := fmt.Sprintf("c%d/%s%d/%d", ci, pt.T, pt.P, b)
@@ -663,6 +666,43 @@ func sweep(s *scenario, r *verifkit.Run, rng *rand.Rand, parts []struct {
 						judge(s, key, o, mb, l.end(), got, "partitionlog_read")
 					}
 				}
+			}
+		}
+	}
+	// reads in NO particular order: consumers at different positions of the same partitions taking turns, seeks back
+	// and forth, partitions interleaved - a read must not depend on which reads came before it
+	var live []int
+	for i, pt := range parts {
+		if len(refs[fmt.Sprintf("%s/%d", pt.T, pt.P)].frames) > 0 {
+			live = append(live, i)
+		}
+	}
+	if len(live) == 0 {
+		return
+	}
+	jumpLimits := []int32{61, 100, 150, 400, 5000}
+	for j := 0; j < 120; j++ {
+		pt := parts[live[rng.Intn(len(live))]]
+		key := fmt.Sprintf("%s/%d", pt.T, pt.P)
+		l := refs[key]
+		o := l.frames[0].Base + rng.Int63n(l.end()-l.frames[0].Base)
+		mb := jumpLimits[rng.Intn(len(jumpLimits))]
+		if rng.Intn(2) == 0 {
+			f := plogExec(h, inst, 51, j, plogReq{Kind: "fetch", Topic: pt.T, Partition: pt.P, Offset: o, MaxBytes: mb})
+			if f.Err != "" {
+				r.Violation("fetch_handler_error", "fetch failed: "+f.Err, map[string]any{"partition": key, "offset": o, "max_bytes": mb})
+				continue
+			}
+			if f.Code != 0 {
+				if o < f.HW {
+					judge(s, key, o, mb, f.HW, nil, fmt.Sprintf("handler_fetch_random_order(code=%d)", f.Code))
+				}
+				continue
+			}
+			judge(s, key, o, mb, f.HW, f.Records, "handler_fetch_random_order")
+		} else if plog, err := h.getPartitionLog(context.Background(), pt.T, pt.P); err == nil {
+			if got, rerr := plog.Read(context.Background(), o, mb); rerr == nil {
+				judge(s, key, o, mb, l.end(), got, "partitionlog_read_random_order")
 			}
 		}
 	}
